@@ -35,8 +35,12 @@ H("c08_ev_equal", "c08_scalar::c08_ev_equal", ["C08", "C01"], ["Evaluator::evalu
   "all pairs of operand answers: nil/false/true/any f64 (all bit patterns)/string(kind only)/table/function, each exact or Unknown; both evaluator configurations",
   mode="full", timeout_s=300, replay="ev_equal",
   assumptions=["string operands: only the kind of the result is checked (Kani 0.68 mis-models LuaValue::String payload bytes)"])
-H("c08_ev_hex", "c08_scalar::c08_ev_hex", ["C08", "C12", "C13", "C06"], ["HexNumber::compute_value", "HexNumber::with_exponent"],
-  "any u64 mantissa, any u32 exponent or none", mode="full", timeout_s=300, replay="ev_hex")
+POWI = "f64::powi -> exact model for base 2 (repeated squaring is exact on powers of two), unconstrained otherwise"
+H("c08_ev_hex", "c08_scalar::c08_ev_hex", ["C08", "C13", "C06"], ["HexNumber::compute_value", "HexNumber::with_exponent"],
+  "any u64 mantissa, any u32 exponent or none", mode="lean", timeout_s=300, replay="ev_hex", stubs=[POWI])
+H("c12_hex_no_panic", "c08_scalar::c12_hex_no_panic", ["C12"], ["HexNumber::compute_value", "HexNumber::with_exponent"],
+  "any u64 mantissa, any u32 exponent or none; every arithmetic-overflow, unwrap and index check of the dev profile", mode="full",
+  timeout_s=300, replay="ev_hex", stubs=[POWI])
 H("c08_ev_bin_dec", "c08_scalar::c08_ev_bin_dec", ["C08", "C13"],
   ["BinaryNumber::compute_value", "DecimalNumber::compute_value", "NumberExpression::compute_value"],
   "any u64, any f64 bit pattern", mode="full", timeout_s=300, replay="ev_bin_dec")
@@ -54,3 +58,26 @@ H("c02_fuse_dense", "c02_fuse::c02_fuse_dense", ["C02"],
   "same token pairs as c02_fuse_tokens; numbers as write_number spells them (not ending in `.` or `_`)",
   mode="lean", timeout_s=900, replay="fuse_dense",
   assumptions=["the dense/readable writers call the break_* predicate named in each claim before the token it guards (call sites read, not executed)"])
+
+# ---------------------------------------------------------------------------------------- scalar kernels
+H("c14_valid_identifier_4", "c_scalar::c14_valid_identifier_4", ["C14", "C01", "C09"], ["process::utils::is_valid_identifier"],
+  "every ASCII string of length 0..=4", mode="lean", timeout_s=600, replay="valid_identifier_4",
+  assumptions=["non-ASCII strings are outside the bound (the function rejects them by an is_ascii test that is executed for ASCII inputs only)"])
+H("c14_valid_identifier_6", "c_scalar::c14_valid_identifier_6", ["C14", "C01", "C09"], ["process::utils::is_valid_identifier"],
+  "every ASCII string of length 0..=6 (covers the 6-letter reserved words `elseif`, `repeat`, `return`)", tier="thorough",
+  mode="lean", timeout_s=1200, replay="valid_identifier_6")
+H("c18_single_line_comment_7", "c_scalar::c18_single_line_comment_7", ["C18", "C01", "C04"], ["generator::token_based::is_single_line_comment"],
+  "every ASCII comment text `--...` of length 2..=7", mode="lean", timeout_s=600, replay="single_line_comment_7")
+H("c18_single_line_comment_9", "c_scalar::c18_single_line_comment_9", ["C18", "C01", "C04"], ["generator::token_based::is_single_line_comment"],
+  "every ASCII comment text `--...` of length 2..=9", tier="thorough", mode="lean", timeout_s=1200, replay="single_line_comment_9")
+H("c04_token_shift", "c_scalar::c04_token_shift", ["C04", "C12"], ["Token::shift_token_line", "Token::replace_with_content", "Token::get_line_number"],
+  "any usize line, any isize amount, the three token position kinds", mode="full", timeout_s=300, replay="token_shift")
+H("c13_raw_bytes", "c_scalar::c13_raw_bytes", ["C13", "C14"], ["generator::utils::needs_escaping", "generator::utils::needs_quoted_string"],
+  "all 256 byte values", mode="full", timeout_s=300, replay="raw_bytes")
+H("c13_quote_symbol", "c_scalar::c13_quote_symbol", ["C13"], ["generator::utils::get_quote_symbol"],
+  "every byte string of length 0..=4", mode="full", timeout_s=300, replay="quote_symbol")
+# c13_special_floats (Expression::from(f64) on NaN/inf/zero) is not registered: the function is
+# recursive through two call sites and CBMC unrolls the normal/subnormal arm (log10, powf, a while
+# loop) at every level even though it is assumed away: out of memory at 12 GB with unwind 3.
+H("c06_luau_number", "c_scalar::c06_luau_number", ["C06", "C07"], ["convert_luau_number::Processor::process_number_expression", "HexNumber::compute_value", "BinaryNumber::compute_value"],
+  "any u64 binary literal, either prefix case", mode="lean", timeout_s=600, replay="luau_number")
